@@ -1,7 +1,7 @@
 // go2lean: translates loop-free, pointer-free integer functions of shaardie/clemens into Lean 4 definitions
 // (tie T1 of DESIGN.md).  go/parser + go/types with the source importer, standard library only.
 //
-//   go2lean <repo-root> <out.lean>
+//	go2lean <repo-root> <out.lean>
 //
 // Supported: return, if/else, switch on a value, := / = / op= on locals and parameters (and on *receiver),
 // var declarations, panic (becomes the zero value; listed in the output), calls of other translated functions,
@@ -52,6 +52,27 @@ type tr struct {
 	panics []string
 	cur    string
 	recv   string // name of a pointer receiver (treated as a value)
+	g      *gen
+	decls  map[string]*ast.FuncDecl
+	tmp    int
+	// results of the function being translated
+	resNames []string
+	retZero  string
+	counts   map[string]int // how often a name is declared in the current function
+}
+
+// gen drives the demand-driven translation: the listed targets first, then every same-module function they call
+type gen struct {
+	fset         *token.FileSet
+	imp          types.Importer
+	ctx          map[string]*tr // by package directory
+	state        map[string]int // "ns.name": 1 in progress, 2 done, 3 failed
+	out          []string       // finished declarations, in dependency order
+	structs      map[string]bool
+	fails        []string
+	isTarget     map[string]bool
+	helpers      []string
+	untranslated []string
 }
 
 func (t *tr) bad(n ast.Node, why string) string {
@@ -110,11 +131,38 @@ func (t *tr) leanType(ty types.Type) string {
 		return "Bool"
 	}
 	if n, ok := ty.(*types.Named); ok {
-		if _, isS := n.Underlying().(*types.Struct); isS {
-			return n.Obj().Name()
+		if st, isS := n.Underlying().(*types.Struct); isS {
+			return t.g.structure(n, st, t)
 		}
 	}
+	if tp, ok := ty.(*types.Tuple); ok && tp.Len() > 0 {
+		var parts []string
+		for i := 0; i < tp.Len(); i++ {
+			parts = append(parts, t.leanType(tp.At(i).Type()))
+		}
+		return "(" + strings.Join(parts, " × ") + ")"
+	}
+	t.fail = append(t.fail, fmt.Sprintf("%s: unsupported type %s", t.cur, ty.String()))
 	return "UNSUPPORTED_TYPE"
+}
+
+// structure emits (once) the Lean structure for a Go struct of supported fields and returns its qualified name
+func (g *gen) structure(n *types.Named, st *types.Struct, from *tr) string {
+	ns := from.ns
+	if n.Obj().Pkg() != nil {
+		ns = nsOf(n.Obj().Pkg().Path())
+	}
+	q := ns + "." + n.Obj().Name()
+	if !g.structs[q] {
+		g.structs[q] = true
+		var sb strings.Builder
+		sb.WriteString("structure " + q + " where\n")
+		for j := 0; j < st.NumFields(); j++ {
+			sb.WriteString(fmt.Sprintf("  %s : %s\n", lname(st.Field(j).Name()), from.leanType(st.Field(j).Type())))
+		}
+		g.out = append(g.out, sb.String())
+	}
+	return q
 }
 
 func (t *tr) zero(ty types.Type) string {
@@ -211,6 +259,14 @@ func (t *tr) expr(e ast.Expr) string {
 				return "(" + a + " / " + b + ")"
 			}
 			return "(Int.tdiv " + a + " " + b + ")"
+		case token.REM:
+			if isBV {
+				if signed {
+					return "(BitVec.srem " + a + " " + b + ")"
+				}
+				return "(" + a + " % " + b + ")"
+			}
+			return "(Int.tmod " + a + " " + b + ")"
 		case token.SHL, token.SHR:
 			op := " <<< "
 			if x.Op == token.SHR {
@@ -255,16 +311,25 @@ func (t *tr) expr(e ast.Expr) string {
 					return "(" + id.Name + " " + t.expr(x.Args[0]) + " " + t.expr(x.Args[1]) + ")"
 				}
 			}
-			if obj, ok := t.info.Uses[id].(*types.Func); ok {
-				return "(" + t.ns + "." + lname(obj.Name()) + t.args(x.Args) + ")"
+			if obj, ok := t.info.Uses[id].(*types.Func); ok && obj.Pkg() != nil {
+				if q, ok := t.g.need(obj); ok {
+					return "(" + q + t.args(x.Args) + ")"
+				}
+				return t.bad(e, "call of untranslatable "+obj.Name())
 			}
 		}
 		if se, ok := x.Fun.(*ast.SelectorExpr); ok {
-			if obj, ok := t.info.Uses[se.Sel].(*types.Func); ok {
+			if obj, ok := t.info.Uses[se.Sel].(*types.Func); ok && obj.Pkg() != nil {
 				sig := obj.Type().(*types.Signature)
-				if sig.Recv() == nil {
-					return "(" + nsOf(obj.Pkg().Path()) + "." + lname(obj.Name()) + t.args(x.Args) + ")"
+				q, ok := t.g.need(obj)
+				if !ok {
+					return t.bad(e, "call of untranslatable "+obj.Name())
 				}
+				if sig.Recv() == nil {
+					return "(" + q + t.args(x.Args) + ")"
+				}
+				// method call: the receiver is the first argument
+				return "(" + q + " " + t.expr(se.X) + t.args(x.Args) + ")"
 			}
 		}
 		return t.bad(e, "call")
@@ -278,8 +343,14 @@ func nsOf(path string) string {
 			return tg.ns
 		}
 	}
-	return "UNKNOWN_PKG"
+	// a package that is not listed: its last path element
+	if i := strings.LastIndex(path, "/"); i >= 0 {
+		return path[i+1:]
+	}
+	return path
 }
+
+const modulePath = "github.com/shaardie/clemens/"
 
 func (t *tr) args(as []ast.Expr) string {
 	var sb strings.Builder
@@ -403,19 +474,33 @@ func (t *tr) block(b []ast.Stmt, k string, ret types.Type, ind string) string {
 			return t.expr(x.Results[0])
 		}
 		if len(x.Results) == 0 {
+			if len(t.resNames) > 0 {
+				return t.tuple(t.resNames)
+			}
 			return k
 		}
-		return t.bad(s, "multiple results")
+		var parts []string
+		for _, r := range x.Results {
+			parts = append(parts, t.expr(r))
+		}
+		return "(" + strings.Join(parts, ", ") + ")"
 	case *ast.ExprStmt:
 		if c, ok := x.X.(*ast.CallExpr); ok {
 			if id, ok := c.Fun.(*ast.Ident); ok && id.Name == "panic" {
 				t.panics = append(t.panics, t.cur)
+				if t.retZero != "" {
+					return t.retZero + " /- Go: panic -/"
+				}
 				return t.zero(ret) + " /- Go: panic -/"
 			}
 		}
 		return t.bad(s, "expression statement")
 	case *ast.DeclStmt:
 		gd, ok := x.Decl.(*ast.GenDecl)
+		if ok && gd.Tok == token.CONST {
+			// local constants are folded into their uses by the type checker
+			return t.block(rest, k, ret, ind)
+		}
 		if !ok || gd.Tok != token.VAR {
 			return t.bad(s, "declaration")
 		}
@@ -433,7 +518,7 @@ func (t *tr) block(b []ast.Stmt, k string, ret types.Type, ind string) string {
 		return out + t.block(rest, k, ret, ind)
 	case *ast.AssignStmt:
 		if len(x.Lhs) != 1 || len(x.Rhs) != 1 {
-			return t.bad(s, "multi-assignment")
+			return t.multiAssign(x, rest, k, ret, ind)
 		}
 		var name string
 		switch l := x.Lhs[0].(type) {
@@ -461,6 +546,10 @@ func (t *tr) block(b []ast.Stmt, k string, ret types.Type, ind string) string {
 			rhs = "(" + cur + " + " + rhs + ")"
 		case token.SUB_ASSIGN:
 			rhs = "(" + cur + " - " + rhs + ")"
+		case token.MUL_ASSIGN:
+			rhs = "(" + cur + " * " + rhs + ")"
+		case token.AND_NOT_ASSIGN:
+			rhs = "(" + cur + " &&& ~~~" + rhs + ")"
 		case token.SHL_ASSIGN:
 			rhs = "(" + cur + " <<< " + t.shiftAmount(x.Rhs[0]) + ")"
 		case token.SHR_ASSIGN:
@@ -471,7 +560,19 @@ func (t *tr) block(b []ast.Stmt, k string, ret types.Type, ind string) string {
 		return fmt.Sprintf("let %s := %s\n%s", cur, rhs, ind) + t.block(rest, k, ret, ind)
 	case *ast.IfStmt:
 		if x.Init != nil {
-			return t.bad(s, "if with init")
+			// `if v := e; cond {…}`: hoist the init when its names are declared only once in the function (no shadowing)
+			as, ok := x.Init.(*ast.AssignStmt)
+			if !ok || as.Tok != token.DEFINE {
+				return t.bad(s, "if with init")
+			}
+			for _, l := range as.Lhs {
+				if id, ok := l.(*ast.Ident); !ok || (id.Name != "_" && t.counts[id.Name] != 1) {
+					return t.bad(s, "if with init (shadowing)")
+				}
+			}
+			y := *x
+			y.Init = nil
+			return t.block(append([]ast.Stmt{x.Init, &y}, rest...), k, ret, ind)
 		}
 		cond := t.expr(x.Cond)
 		var elseList []ast.Stmt
@@ -504,10 +605,20 @@ func (t *tr) block(b []ast.Stmt, k string, ret types.Type, ind string) string {
 		return fmt.Sprintf("let %s := if %s then\n%s    %s\n%s  else\n%s    %s\n%s", tuple, cond, ind, t.block(x.Body.List, tuple, ret, ind+"    "), ind, ind,
 			t.block(elseList, tuple, ret, ind+"    "), ind) + t.block(rest, k, ret, ind)
 	case *ast.SwitchStmt:
-		if x.Init != nil || x.Tag == nil {
+		if x.Init != nil {
 			return t.bad(s, "switch form")
 		}
-		tag := t.expr(x.Tag)
+		for _, c := range x.Body.List {
+			for _, st := range c.(*ast.CaseClause).Body {
+				if br, ok := st.(*ast.BranchStmt); ok {
+					return t.bad(br, "branch statement in switch")
+				}
+			}
+		}
+		tag := ""
+		if x.Tag != nil {
+			tag = t.expr(x.Tag)
+		}
 		restTxt := t.block(rest, k, ret, ind+"  ")
 		out := ""
 		var def []ast.Stmt
@@ -519,15 +630,292 @@ func (t *tr) block(b []ast.Stmt, k string, ret types.Type, ind string) string {
 			}
 			var conds []string
 			for _, v := range cc.List {
-				conds = append(conds, "("+tag+" == "+t.expr(v)+")")
+				if x.Tag == nil {
+					conds = append(conds, t.expr(v))
+				} else {
+					conds = append(conds, "("+tag+" == "+t.expr(v)+")")
+				}
 			}
 			out += fmt.Sprintf("if %s then\n%s  %s\n%selse ", strings.Join(conds, " || "), ind, t.block(cc.Body, restTxt, ret, ind+"  "), ind)
 		}
 		return out + "\n" + ind + "  " + t.block(def, restTxt, ret, ind+"  ")
 	case *ast.BlockStmt:
 		return t.block(append(append([]ast.Stmt{}, x.List...), rest...), k, ret, ind)
+	case *ast.IncDecStmt:
+		id, ok := x.X.(*ast.Ident)
+		if !ok {
+			return t.bad(s, "inc/dec target")
+		}
+		one := t.constLit(constant.MakeInt64(1), t.info.Types[x.X].Type)
+		op := " + "
+		if x.Tok == token.DEC {
+			op = " - "
+		}
+		return fmt.Sprintf("let %s := (%s%s%s)\n%s", lname(id.Name), lname(id.Name), op, one, ind) + t.block(rest, k, ret, ind)
+	case *ast.EmptyStmt:
+		return t.block(rest, k, ret, ind)
 	}
 	return t.bad(s, fmt.Sprintf("statement %T", s))
+}
+
+func (t *tr) tuple(names []string) string {
+	if len(names) == 1 {
+		return lname(names[0])
+	}
+	var parts []string
+	for _, n := range names {
+		parts = append(parts, lname(n))
+	}
+	return "(" + strings.Join(parts, ", ") + ")"
+}
+
+// proj is the i-th component of an n-tuple (Lean tuples nest to the right)
+func proj(v string, i, n int) string {
+	if n == 1 {
+		return v
+	}
+	s := v
+	for j := 0; j < i; j++ {
+		s += ".2"
+	}
+	if i < n-1 {
+		s += ".1"
+	}
+	return s
+}
+
+// multiAssign: `a, b := f(x)` and the parallel assignment `a, b = e1, e2` (all right-hand sides are evaluated first)
+func (t *tr) multiAssign(x *ast.AssignStmt, rest []ast.Stmt, k string, ret types.Type, ind string) string {
+	if x.Tok != token.DEFINE && x.Tok != token.ASSIGN {
+		return t.bad(x, "multi-assignment operator")
+	}
+	var names []string
+	for _, l := range x.Lhs {
+		id, ok := l.(*ast.Ident)
+		if !ok {
+			return t.bad(x, "multi-assignment target")
+		}
+		names = append(names, id.Name)
+	}
+	t.tmp++
+	out := ""
+	if len(x.Rhs) == 1 {
+		tmp := fmt.Sprintf("r_%d", t.tmp)
+		out += fmt.Sprintf("let %s := %s\n%s", tmp, t.expr(x.Rhs[0]), ind)
+		for i, n := range names {
+			if n == "_" {
+				continue
+			}
+			out += fmt.Sprintf("let %s := %s\n%s", lname(n), proj(tmp, i, len(names)), ind)
+		}
+		return out + t.block(rest, k, ret, ind)
+	}
+	if len(x.Rhs) != len(names) {
+		return t.bad(x, "multi-assignment arity")
+	}
+	for i := range names {
+		out += fmt.Sprintf("let r_%d_%d := %s\n%s", t.tmp, i, t.expr(x.Rhs[i]), ind)
+	}
+	for i, n := range names {
+		if n == "_" {
+			continue
+		}
+		out += fmt.Sprintf("let %s := r_%d_%d\n%s", lname(n), t.tmp, i, ind)
+	}
+	return out + t.block(rest, k, ret, ind)
+}
+
+// load parses and type-checks one package directory of the module (cached)
+func (g *gen) load(pkgDir string) *tr {
+	if c, ok := g.ctx[pkgDir]; ok {
+		return c
+	}
+	files, _ := filepath.Glob(filepath.Join(pkgDir, "*.go"))
+	var parsed []*ast.File
+	for _, f := range files {
+		if strings.HasSuffix(f, "_test.go") || strings.HasSuffix(f, "_verif.go") || strings.Contains(f, "_verif_") {
+			continue
+		}
+		af, err := parser.ParseFile(g.fset, f, nil, 0)
+		if err != nil {
+			g.fails = append(g.fails, "parse "+f+": "+err.Error())
+			continue
+		}
+		parsed = append(parsed, af)
+	}
+	info := &types.Info{Types: map[ast.Expr]types.TypeAndValue{}, Defs: map[*ast.Ident]types.Object{}, Uses: map[*ast.Ident]types.Object{}, Selections: map[*ast.SelectorExpr]*types.Selection{}}
+	conf := types.Config{Importer: g.imp, Error: func(error) {}}
+	pkg, _ := conf.Check(modulePath+pkgDir, g.fset, parsed, info)
+	t := &tr{fset: g.fset, info: info, pkg: pkg, ns: nsOf(modulePath + pkgDir), g: g, decls: map[string]*ast.FuncDecl{}}
+	for _, af := range parsed {
+		for _, d := range af.Decls {
+			f, ok := d.(*ast.FuncDecl)
+			if !ok || f.Body == nil {
+				continue
+			}
+			t.decls[declName(f)] = f
+		}
+	}
+	g.ctx[pkgDir] = t
+	return t
+}
+
+func declName(f *ast.FuncDecl) string {
+	name := f.Name.Name
+	if f.Recv != nil && len(f.Recv.List) == 1 {
+		rt := f.Recv.List[0].Type
+		if st, ok := rt.(*ast.StarExpr); ok {
+			rt = st.X
+		}
+		if id, ok := rt.(*ast.Ident); ok {
+			name = id.Name + "." + name
+		}
+	}
+	return name
+}
+
+// need makes sure the function behind a call is translated and returns its qualified Lean name.
+// The object may come from the source importer (another type-checking universe), so it is looked up by package path and name.
+func (g *gen) need(obj *types.Func) (string, bool) {
+	path := obj.Pkg().Path()
+	if !strings.HasPrefix(path, modulePath) {
+		return "", false
+	}
+	name := obj.Name()
+	if sig := obj.Type().(*types.Signature); sig.Recv() != nil {
+		rt := sig.Recv().Type()
+		if p, ok := rt.(*types.Pointer); ok {
+			rt = p.Elem()
+		}
+		if n, ok := rt.(*types.Named); ok {
+			name = n.Obj().Name() + "." + name
+		} else {
+			return "", false
+		}
+	}
+	return g.translate(strings.TrimPrefix(path, modulePath), name)
+}
+
+func (g *gen) translate(pkgDir, fname string) (string, bool) {
+	c := g.load(pkgDir)
+	q := c.ns + "." + lname(strings.ReplaceAll(fname, ".", "_"))
+	key := c.ns + "." + fname
+	switch g.state[key] {
+	case 2:
+		return q, true
+	case 1:
+		g.fails = append(g.fails, key+": recursive function")
+		return q, false
+	case 3:
+		return q, false
+	}
+	g.state[key] = 1
+	fd := c.decls[fname]
+	if fd == nil {
+		g.fails = append(g.fails, key+": function not found")
+		g.state[key] = 3
+		return q, false
+	}
+	// a fresh translator state for this function (shares the package's type information)
+	t := &tr{fset: c.fset, info: c.info, pkg: c.pkg, ns: c.ns, g: g, decls: c.decls, cur: key, counts: map[string]int{}}
+	ast.Inspect(fd, func(n ast.Node) bool {
+		if id, ok := n.(*ast.Ident); ok {
+			if _, isDef := c.info.Defs[id]; isDef {
+				t.counts[id.Name]++
+			}
+		}
+		return true
+	})
+	obj := c.info.Defs[fd.Name].(*types.Func)
+	sig := obj.Type().(*types.Signature)
+	var params []string
+	var retT types.Type
+	recvName := ""
+	if sig.Recv() != nil {
+		recvName = sig.Recv().Name()
+		params = append(params, fmt.Sprintf("(%s : %s)", lname(recvName), t.leanType(sig.Recv().Type())))
+	}
+	for i := 0; i < sig.Params().Len(); i++ {
+		p := sig.Params().At(i)
+		params = append(params, fmt.Sprintf("(%s : %s)", lname(p.Name()), t.leanType(p.Type())))
+	}
+	k := ""
+	pre := ""
+	switch {
+	case sig.Results().Len() == 1:
+		retT = sig.Results().At(0).Type()
+		if _, isPtr := retT.(*types.Pointer); isPtr && recvName != "" {
+			retT = sig.Recv().Type().(*types.Pointer).Elem()
+		}
+		if n := sig.Results().At(0).Name(); n != "" && n != "_" {
+			t.resNames = []string{n}
+			pre = fmt.Sprintf("let %s : %s := %s\n  ", lname(n), t.leanType(retT), t.zero(retT))
+		}
+	case sig.Results().Len() == 0 && recvName != "":
+		// a setter through a pointer receiver: returns the new receiver
+		retT = sig.Recv().Type()
+		if p, ok := retT.(*types.Pointer); ok {
+			retT = p.Elem()
+		}
+		k = lname(recvName)
+	case sig.Results().Len() > 1:
+		retT = sig.Results()
+		var zs []string
+		for i := 0; i < sig.Results().Len(); i++ {
+			r := sig.Results().At(i)
+			zs = append(zs, t.zero(r.Type()))
+			if r.Name() != "" && r.Name() != "_" {
+				t.resNames = append(t.resNames, r.Name())
+				pre += fmt.Sprintf("let %s : %s := %s\n  ", lname(r.Name()), t.leanType(r.Type()), t.zero(r.Type()))
+			}
+		}
+		if len(t.resNames) != 0 && len(t.resNames) != sig.Results().Len() {
+			t.fail = append(t.fail, key+": partly named results")
+		}
+		t.retZero = "(" + strings.Join(zs, ", ") + ")"
+	default:
+		g.fails = append(g.fails, key+": result arity")
+		g.state[key] = 3
+		return q, false
+	}
+	retTxt := t.leanType(retT)
+	body := t.block(fd.Body.List, k, retT, "  ")
+	g.fails = append(g.fails, t.fail...)
+	for _, p := range t.panics {
+		g.panics(p)
+	}
+	if len(t.fail) > 0 {
+		g.state[key] = 3
+		if g.isTarget[key] {
+			// a listed function that left the translatable subset: a stub keeps the generated file (and the driver) compiling; the
+			// function is listed in `untranslated`, the checks that depend on it fall back to the hand-written model and tie T3
+			z := t.retZero
+			if z == "" {
+				z = t.zero(retT)
+			}
+			g.out = append(g.out, fmt.Sprintf("def %s %s : %s :=\n  %s /- UNTRANSLATABLE: stub -/\n", q, strings.Join(params, " "), retTxt, z))
+			g.untranslated = append(g.untranslated, key)
+		}
+		return q, false
+	}
+	if !g.isTarget[key] {
+		// a helper reached through a call: listed so that the generic proof scripts unfold it together with its caller
+		g.helpers = append(g.helpers, q)
+	}
+	g.out = append(g.out, fmt.Sprintf("def %s %s : %s :=\n  %s%s\n", q, strings.Join(params, " "), retTxt, pre, body))
+	g.state[key] = 2
+	return q, true
+}
+
+var panicList []string
+
+func (g *gen) panics(p string) {
+	for _, q := range panicList {
+		if q == p {
+			return
+		}
+	}
+	panicList = append(panicList, p)
 }
 
 func main() {
@@ -544,138 +932,57 @@ func main() {
 		panic(err)
 	}
 	fset := token.NewFileSet()
-	imp := importer.ForCompiler(fset, "source", nil)
+	g := &gen{fset: fset, imp: importer.ForCompiler(fset, "source", nil), ctx: map[string]*tr{}, state: map[string]int{}, structs: map[string]bool{}, isTarget: map[string]bool{}}
+	for _, tg := range targets {
+		for _, f := range tg.funcs {
+			g.isTarget[tg.ns+"."+f] = true
+		}
+	}
+	for _, tg := range targets {
+		for _, f := range tg.funcs {
+			g.translate(tg.pkgDir, f)
+		}
+	}
 	var out strings.Builder
 	out.WriteString("-- GENERATED by tools/go2lean from the Go source text of /repo on every run. Do not edit.\n")
 	out.WriteString("set_option linter.unusedVariables false\nnamespace Clemens.Src\n\n")
-	var fails, panics []string
-	structsDone := map[string]bool{}
-	for _, tg := range targets {
-		files, _ := filepath.Glob(filepath.Join(tg.pkgDir, "*.go"))
-		var parsed []*ast.File
-		for _, f := range files {
-			if strings.HasSuffix(f, "_test.go") || strings.HasSuffix(f, "_verif.go") || strings.Contains(f, "_verif_") {
-				continue
-			}
-			af, err := parser.ParseFile(fset, f, nil, 0)
-			if err != nil {
-				fails = append(fails, "parse "+f+": "+err.Error())
-				continue
-			}
-			parsed = append(parsed, af)
-		}
-		info := &types.Info{Types: map[ast.Expr]types.TypeAndValue{}, Defs: map[*ast.Ident]types.Object{}, Uses: map[*ast.Ident]types.Object{}, Selections: map[*ast.SelectorExpr]*types.Selection{}}
-		conf := types.Config{Importer: imp, Error: func(error) {}}
-		pkg, _ := conf.Check("github.com/shaardie/clemens/"+tg.pkgDir, fset, parsed, info)
-		t := &tr{fset: fset, info: info, pkg: pkg, ns: tg.ns}
-		out.WriteString("namespace " + tg.ns + "\n")
-		for _, fname := range tg.funcs {
-			var fd *ast.FuncDecl
-			for _, af := range parsed {
-				for _, d := range af.Decls {
-					f, ok := d.(*ast.FuncDecl)
-					if !ok || f.Body == nil {
-						continue
-					}
-					name := f.Name.Name
-					if f.Recv != nil && len(f.Recv.List) == 1 {
-						rt := f.Recv.List[0].Type
-						if st, ok := rt.(*ast.StarExpr); ok {
-							rt = st.X
-						}
-						if id, ok := rt.(*ast.Ident); ok {
-							name = id.Name + "." + name
-						}
-					}
-					if name == fname {
-						fd = f
-					}
-				}
-			}
-			if fd == nil {
-				fails = append(fails, tg.ns+"."+fname+": function not found")
-				continue
-			}
-			t.cur = tg.ns + "." + fname
-			obj := info.Defs[fd.Name].(*types.Func)
-			sig := obj.Type().(*types.Signature)
-			var params []string
-			var retT types.Type
-			recvName := ""
-			if sig.Recv() != nil {
-				recvName = sig.Recv().Name()
-				rt := sig.Recv().Type()
-				if pt, ok := rt.(*types.Pointer); ok {
-					rt = pt.Elem()
-				}
-				if n, ok := rt.(*types.Named); ok {
-					if st, isS := n.Underlying().(*types.Struct); isS && !structsDone[n.Obj().Name()] {
-						structsDone[n.Obj().Name()] = true
-						out.WriteString("structure " + n.Obj().Name() + " where\n")
-						for j := 0; j < st.NumFields(); j++ {
-							out.WriteString(fmt.Sprintf("  %s : %s\n", lname(st.Field(j).Name()), t.leanType(st.Field(j).Type())))
-						}
-					}
-				}
-				params = append(params, fmt.Sprintf("(%s : %s)", lname(recvName), t.leanType(sig.Recv().Type())))
-			}
-			for i := 0; i < sig.Params().Len(); i++ {
-				p := sig.Params().At(i)
-				lt := t.leanType(p.Type())
-				if n, ok := p.Type().(*types.Named); ok {
-					if st, isS := n.Underlying().(*types.Struct); isS && !structsDone[n.Obj().Name()] {
-						structsDone[n.Obj().Name()] = true
-						var sb strings.Builder
-						sb.WriteString("structure " + n.Obj().Name() + " where\n")
-						for j := 0; j < st.NumFields(); j++ {
-							sb.WriteString(fmt.Sprintf("  %s : %s\n", lname(st.Field(j).Name()), t.leanType(st.Field(j).Type())))
-						}
-						out.WriteString(sb.String())
-					}
-				}
-				params = append(params, fmt.Sprintf("(%s : %s)", lname(p.Name()), lt))
-			}
-			k := ""
-			if sig.Results().Len() == 1 {
-				retT = sig.Results().At(0).Type()
-				if _, isPtr := retT.(*types.Pointer); isPtr && recvName != "" {
-					retT = sig.Recv().Type().(*types.Pointer).Elem()
-				}
-			} else if sig.Results().Len() == 0 && recvName != "" {
-				// a setter through a pointer receiver: returns the new receiver
-				retT = sig.Recv().Type()
-				if p, ok := retT.(*types.Pointer); ok {
-					retT = p.Elem()
-				}
-				k = lname(recvName)
-			} else {
-				fails = append(fails, t.cur+": result arity")
-				continue
-			}
-			body := t.block(fd.Body.List, k, retT, "  ")
-			lean := strings.ReplaceAll(fname, ".", "_")
-			out.WriteString(fmt.Sprintf("def %s %s : %s :=\n  %s\n", lname(lean), strings.Join(params, " "), t.leanType(retT), body))
-		}
-		out.WriteString("end " + tg.ns + "\n\n")
-		fails = append(fails, t.fail...)
-		panics = append(panics, t.panics...)
+	for _, d := range g.out {
+		out.WriteString(d)
 	}
-	out.WriteString("/-- functions in which a Go `panic` was replaced by the zero value -/\ndef panicsReplaced : List String := [")
-	for i, p := range panics {
+	sort.Strings(panicList)
+	out.WriteString("\n/-- functions in which a Go `panic` was replaced by the zero value -/\ndef panicsReplaced : List String := [")
+	for i, p := range panicList {
 		if i > 0 {
 			out.WriteString(", ")
 		}
 		out.WriteString(fmt.Sprintf("%q", p))
 	}
-	out.WriteString("]\n\nend Clemens.Src\n")
+	out.WriteString("]\n\n/-- listed functions that could not be translated (a stub returning the zero value stands in their place) -/\ndef untranslated : List String := [")
+	for i, p := range g.untranslated {
+		if i > 0 {
+			out.WriteString(", ")
+		}
+		out.WriteString(fmt.Sprintf("%q", p))
+	}
+	out.WriteString("]\n\n/-- unfolds the helper functions that were translated on demand (reached through a call from a listed function) -/\n")
+	if len(g.helpers) == 0 {
+		out.WriteString("macro \"src_unfold_helpers\" : tactic => `(tactic| skip)\n")
+	} else {
+		out.WriteString("macro \"src_unfold_helpers\" : tactic => `(tactic| try simp only [" + strings.Join(g.helpers, ", ") + "] at *)\n")
+	}
+	out.WriteString("\nend Clemens.Src\n")
 	old, err := os.ReadFile(outPath)
 	if err != nil || string(old) != out.String() {
 		os.MkdirAll(filepath.Dir(outPath), 0o755)
 		os.WriteFile(outPath, []byte(out.String()), 0o644)
 	}
-	if len(fails) > 0 {
-		for _, f := range fails {
-			fmt.Fprintln(os.Stderr, "untranslatable:", f)
+	if len(g.fails) > 0 {
+		seen := map[string]bool{}
+		for _, f := range g.fails {
+			if !seen[f] {
+				seen[f] = true
+				fmt.Fprintln(os.Stderr, "untranslatable:", f)
+			}
 		}
 		os.Exit(3)
 	}
